@@ -219,3 +219,24 @@ Proof.
   unfold d'. cbn [big fst micro]. rewrite open_refines. unfold opened, file_of. rewrite F.
   destruct (mboxes (d_st c)) eqn:Mb; [contradiction|]. cbn. repeat split.
 Qed.
+
+(** ---- the observed-state spec on workloads that remove NON-EMPTY mailboxes ------------- *)
+
+Definition ARCH : str := S_ "Archive".
+Definition W_REMOVE : list cop :=
+  [COpen 100 100 100 100 100;
+   CDeliver INBOX 100 W_SHAPE;
+   CBase (OCreate ARCH 101);
+   CAppend ARCH [] (mkShape 6 3 [false; false; true]);
+   CAppend ARCH [S_ "\Seen"] W_SHAPE;
+   CBase (OUidCopy 6 [URange 1 2] (S_ "Trash"));
+   CBase (OUidStore 6 [UOne 1] SAdd [S_ "\Deleted"]);
+   CBase (OExpunge 6);
+   CBase (ORename ARCH (S_ "Arch2") 102);
+   CBase (ODelete (S_ "Arch2"));
+   CAppend INBOX [] W_SHAPE;
+   CBase (ORename INBOX (S_ "old") 103)].
+
+(** the store a non-atomic DELETE leaves when the process dies between its two
+    statements: the mailbox still listed, its links gone *)
+Definition emptied (d : dstore) (mb : Z) : dstore := with_st d (delete_links (d_st d) (in_mbox mb)).
